@@ -4,7 +4,7 @@
 Require Extraction.
 Require Import ExtrOcamlBasic.
 From MOC.Base Require Import RangeSet.
-From MOC.Model Require Import Qty Ops1D Query Expr Build Repr Serial ST STSerial.
+From MOC.Model Require Import Qty Ops1D Query Expr Build Repr Serial ST STSerial TextValid Store.
 Extraction Language OCaml.
 Extraction "moc_model.ml"
   RangeSet.covb RangeSet.canonb RangeSet.canon_of
@@ -17,5 +17,7 @@ Extraction "moc_model.ml"
   Repr.normal_cellsb Repr.uniq_hpx Repr.from_uniq_hpx Repr.to_zuniq Repr.from_zuniq Repr.scale
   Serial.encode_rows Serial.decode_rows Serial.fits_pad Serial.decode_cells
   ST.pts_opb ST.pts_eqb ST.valid2db ST.wfb ST.time_orderedb ST.s_at
-  ST.obs_moc ST.r2d_okb ST.cov2b ST.tfold ST.sfold ST.space_cell
-  STSerial.encode2 STSerial.decode2.
+  ST.obs_moc ST.r2d_okb ST.cov2b ST.tfold ST.sfold ST.space_cell ST.st_op_spec
+  STSerial.encode2 STSerial.decode2
+  TextValid.text_accept TextValid.text_depth TextValid.text_decode
+  Store.exec Store.run Store.empty_slab.
